@@ -79,7 +79,8 @@ def run(cells, irs, fn):
                     fmt = cell[0] if isinstance(cell, (list, tuple)) and cell else str(cell)
                     fails.setdefault(("newly-raises", str(fmt), what.split(":")[0]), (cell, ir, "this evaluation returned on the committed tree and now raises %s" % what[:200]))
                 continue
-            fails.setdefault(tuple(key) + (("shape=" + doc_shape(ir),) if doc_shape(ir) else ()), (cell, ir, what))
+            shp = doc_shape(ir, _extra)
+            fails.setdefault(tuple(key) + (("shape=" + shp,) if shp else ()), (cell, ir, what))
     return len(jobs), raised, fails
 
 
@@ -123,10 +124,14 @@ def flush_raise_baseline():
         json.dump(d, f, indent=0, sort_keys=True)
 
 
-def doc_shape(ir):
+def doc_shape(ir, extra=None):
     """Unusual shapes of the descriptions of an interface; kept apart from the failure class so that old findings still match"""
     docs = [p.get("doc") or "" for p in (ir.get("params") or {}).values()] if isinstance(ir, dict) else []
-    return "multiline-doc" if any("\n" in d for d in docs) else ("colon-doc" if any(":" in d and not d.startswith("[") for d in docs) else "")
+    if isinstance(extra, dict) and (extra.get("param_doc") or "").startswith(("Optional", "(Optional)")):
+        return "optional-prose"  # the description of the very parameter the failure is about starts with the word
+    if any("\n" in d for d in docs):
+        return "multiline-doc"
+    return "colon-doc" if any(":" in d and not d.startswith("[") for d in docs) else ""
 
 
 def report(run_, prefix, fails, refuted_names=()):
